@@ -77,7 +77,9 @@ type eventOwner struct {
 	notify    bool
 	consumers int32
 
-	last lib.QueueMPSC
+	// the buffer of the last messages is written by the producers and read by every new subscriber
+	lastMutex sync.Mutex
+	last      lib.QueueMPSC
 }
 
 func createTargetManager(tm gen.TargetManager) gen.TargetManager {
